@@ -850,7 +850,9 @@ def _subpaths(event, what, changed):
     """
     if isinstance(changed, dict):
         # Sub-paths to compare for each watched parameter; None marks a
-        # parameter that is depended on directly and always counts
+        # parameter that is depended on directly and always counts, an
+        # empty tuple a parameter a wildcard path passes through while its
+        # final sub-object is missing (whatever gets attached counts)
         return changed.get(event.name)
     return [(p, what) for p in changed]
 
@@ -883,11 +885,15 @@ def _skip_event(*events, **kwargs):
         # and through the new one when it was attached)
         before = getattr(e, 'reached', None) or {}
         after = getattr(e, 'entered', None) or {}
-        if subpaths is None and before:
+        if subpaths is None:
+            # (the parameter is itself the dependency: the event counts,
+            # as it does for any other watcher of the parameter)
+            return False
+        if not subpaths and before:
             # (a path that does not resolve at the moment: what the
             # watchers of the method compared when the batch began)
             subpaths = list(before)
-        if subpaths is None:
+        if not subpaths:
             if e.old is e.new and e.type != 'triggered' and not getattr(e, 'several', False):
                 # (nothing to compare, and nothing was attached)
                 continue
@@ -2799,7 +2805,7 @@ class Parameters:
             prefix = p[:-len('param')]
             # (while the final sub-object is missing there is nothing to
             # compare: whatever gets attached along the path counts)
-            subparams = None if subobjs[-1] is None else [prefix + sp for sp in list(subobjs[-1].param)]
+            subparams = () if subobjs[-1] is None else [prefix + sp for sp in list(subobjs[-1].param)]
         else:
             subparams = [p]
 
@@ -2845,9 +2851,14 @@ class Parameters:
                 callback = callback or dcallback
                 if dcallback is not None:
                     routed.add(pdep.name)
-                if dsubparams is None:
+                current = subparams.get(pdep.name, [])
+                if dsubparams is None or current is None:
+                    # (the final parameter of a path: always counts)
                     subparams[pdep.name] = None
-                elif subparams.get(pdep.name, []) is not None:
+                elif isinstance(dsubparams, tuple) or isinstance(current, tuple):
+                    # (nothing to compare: every attachment counts)
+                    subparams[pdep.name] = ()
+                else:
                     subpaths = subparams.setdefault(pdep.name, [])
                     subpaths += [(sp, dwhat) for sp in dsubparams if (sp, dwhat) not in subpaths]
 
